@@ -275,7 +275,8 @@ CONTROLS4 = [HOMONYMOUS_TEST_AND_SUBSUITE, HOMONYMOUS_TEST_AND_SUBSUITE_SEQ, HOM
 # a reporting backend handler that ends with an exception class the iteration / generator / interpreter protocols treat
 # specially: a bare `next(it)` on an exhausted iterator (StopIteration), its async twin, a generator closed under the
 # handler (GeneratorExit), `sys.exit()`, a KeyboardInterrupt raised on the event-handling thread.  The first two are
-# ordinary Exceptions for `_handler_loop`; the last three are not caught by its `except Exception` (finding D42).
+# ordinary Exceptions for `_handler_loop`; the last three were not caught by its `except Exception` (finding D42, repaired:
+# `except BaseException`): all five are recorded, skip what has not started and reach the caller with their text.
 PROTOCOL_FAULTS = [dict(EMPTY_BACKEND_ERROR, fault={"k": 3, "cls": c, "text": "backend boom"})
                    for c in ("StopIteration", "StopAsyncIteration", "GeneratorExit", "SystemExit", "KeyboardInterrupt")]
 
